@@ -45,7 +45,15 @@ namespace std { istream &istream::getline(char *s, long n, char d) {
     long k = 0; bool delim = false;
     for (int i = 0; i < 10; i++) { int c = peek(); if (c < 0) { _m_state |= eofbit; break; } if (c == (unsigned char)d) { get(); delim = true; break; } if (k >= n - 1) { _m_state |= failbit; break; } s[k++] = (char)get(); }
     if (n > 0) s[k] = 0; if (k == 0 && !delim) _m_state |= failbit; _m_gcount = (unsigned long)k + (delim ? 1 : 0); return *this; } }
+/* models for h_CreateSubSuperInstance */
+const char *SkipSimpleRecord(istream &in, std::string &buf, ErrorDescriptor *) { for (int i = 0; i < 3; i++) { int c = in.peek(); if (c != '(' && c != ')') break; in.get(); if (c == ')') break; } return buf.c_str(); }
+static int g_cx_names, g_cx_fileid; static SDAI_Application_instance *g_cx_obj;
+static SDAI_Application_instance *verif_new_complex(std::string **names, int fileid)   /* (the C-style cast of the array is replaced by &entNmArr[0]: cbmc's C++ front end loses the bounds of a cast array) */
+{   /* the constructor walks the name array up to its null terminator; the (scaled) array has three slots */
+    int n = 0; if (names[0]) { n = 1; if (names[1]) { n = 2; if (names[2]) n = 3; } }
+    g_cx_names = n; g_cx_fileid = fileid; return g_cx_obj; }
 #include "stepfile_extract.inc"
+#include "subsuper_extract.inc"
 #include "stepfile_inline_extract.inc"
 #undef strstr
 #include "src/clutils/errordesc.cc"
